@@ -27,7 +27,7 @@ Proof. repeat split; same. Qed.
 Lemma gen_radius : @rssterm_gen = @rssterm /\ @Lsterm_gen = @Lsterm. Proof. split; same. Qed.
 Lemma gen_history : @supdate_gen = @supdate. Proof. same. Qed.
 Lemma gen_grain : @constrained1_gen = @constrained1 /\ @growth1_gen = @growth1 /\ @Rcr_gen = @Rcr /\ @normalize_gen = @normalize /\
-  @Rm3_gen = @Rm3 /\ @zener1_gen = @zener1 /\ @span_gen = @span.
+  @Rm3_gen = @Rm3 /\ @zener1_gen = @zener1 /\ @span_gen = @span /\ @gload_gen = @gload /\ @greset_gen = @greset.
 Proof. repeat split; same. Qed.
 Lemma gen_solve_fractions : 0 < solve_minDtFrac_gen <= solve_maxDtFrac_gen.
 Proof. unfold solve_minDtFrac_gen, solve_maxDtFrac_gen. lra. Qed.
